@@ -13,6 +13,8 @@ sys.path.insert(0, os.path.dirname(os.path.abspath(__file__)))
 import recovery_common as rc  # noqa: E402
 
 REQUIRED = [
+    "window:events", "window:fresh-publication", "window:stale-copy",
+    "window:fresh-publication-while-recovering-a-gap", "impl:disc=3010",
     "via:cmd", "via:connect", "via:connect,stale-epoch,offset-retained",
     "state:no-stream(meta-expired-or-never)", "state:meta-expired(new-epoch,top0)", "state:empty-top0",
     "state:cleared-top-kept(expired-or-removed)", "state:cleared-after-remove-op", "state:trimmed", "state:full",
@@ -30,8 +32,9 @@ def run(ctx):
                 "filters (client and server), RejectUnrecovered flag and RecoveryMaxPublicationLimit 0..5; "
                 "non-trivial = contains a subscribe whose state was observable; distinct = distinct scenario text")
     ctx.assumptions = [
-        "single node, MemoryBroker, one channel per scenario; no publisher concurrent with the subscribe "
-        "(buffered publications are empty in stream mode; the merge itself is C39)",
+        "single node, MemoryBroker (wrapped only to get a hook after History returned), one channel per scenario; "
+        "traffic concurrent with a subscribe = publications made, and old publications re-delivered through the "
+        "broker event handler, right after the subscribe's history read returned (they land in the PUB/SUB buffer)",
         "operations happen at x.5 s of the virtual clock, sweepers at whole seconds",
         "theorems assume RStream.Inv (retained list = contiguous suffix ending at top, top+1 < 2^64); it is proved "
         "inductive for the hub mini-model and validated on every peeked broker state",
